@@ -122,7 +122,7 @@ class World:
 
 
 LETTERS = ["min0", "min1", "max0", "max1", "min2", "min3", "max3", "min4", "subj0", "subj1", "subjL", "subjLz", "subj5", "subjBad",
-           "minBad", "maxBad", "ubx", "lby", "ubxN", "uby", "read",
+           "minBad", "maxBad", "ubx", "lby", "ubxN", "uby", "uba0", "lbz0", "read",
            "s:auto", "s:SLSQP", "s:trust-constr", "s:L-BFGS-B", "s:Nelder-Mead", "s:Powell", "s:linprog", "s:highs-ds"]
 NO_MODEL_OP = {"subjBad", "minBad", "maxBad"}        # rejected calls: the problem must be exactly as before (no model operation)
 
@@ -148,6 +148,10 @@ def op_term(w: World, L: str, toggles):
         return f'(OSetLb "y" (Some {ser.q(toggles["lby"])}))'
     if L == "ubxN":
         return '(OSetUb "x" None)'
+    if L == "uba0":
+        return '(OSetUb "a" (Some (QQ 0 1)))'          # a bound that is exactly 0 (written as the int 0)
+    if L == "lbz0":
+        return '(OSetLb "z" (Some (QQ 0 1)))'
     if L == "uby":
         return f'(OSetUb "y" (Some {ser.q(toggles["uby"])}))'
     if L == "read":
@@ -163,7 +167,7 @@ def bnd_t(b):
 
 class Runner:
     """Executes letters on one live Problem; bound-edit values alternate so that repeated edits change something."""
-    UB, LB, UBY = [2.0, 0.0, 3.0], [-1.0, -2.0, 0.0], [2.5, 0.0, 3.5]
+    UB, LB, UBY = [2.0, 1.0, 3.0], [-1.0, -2.0, 0.0], [2.5, 2.0, 3.5]      # every value keeps the scripted answer FEAS inside the box
 
     def __init__(self, variant):
         from optyx import Problem
@@ -216,6 +220,10 @@ class Runner:
             w.y.lb = t["lby"]; self.nlb += 1
         elif L == "ubxN":
             w.x.ub = None
+        elif L == "uba0":
+            w.a.ub = 0
+        elif L == "lbz0":
+            w.z.lb = -0.0
         elif L == "uby":
             w.y.ub = t["uby"]; self.nuby += 1
         elif L == "read":
